@@ -24,7 +24,7 @@ def gen_tables(gen, pres):
         dup = gen.get('dup', False)
 
         def rows(k, win):
-            toks = [pres.token(i) for i in range(k)]
+            toks = sorted(pres.token(i) for i in range(k))
             out = []
             for m in range(1 << k):
                 c = m.bit_count()
@@ -240,9 +240,16 @@ def w_packed_tiny(job):
         L = mkframe(lvals, pres, prefix='l')
         R = mkframe(rvals, pres, prefix='r')
         tok = make_tokenizer(['ws', True])
-        out = call_join(meas, L, R, tok, t, op, ae, n_jobs=n_jobs)
+        via = job.get('via', 'join')
+        if via == 'join':
+            out = call_join(meas, L, R, tok, t, op, ae, n_jobs=n_jobs)
+            got, probs = index_output(out, L['id'].tolist(), R['id'].tolist(), True)
+        else:
+            from checks.filters import make_filter, call_filter_tables, pairs_of
+            f = make_filter(via, tok, meas, t, ae=ae, op=op)
+            out = call_filter_tables(f, L, R, n_jobs=n_jobs, score=False if via == 'Overlap' else None)
+            got, probs = pairs_of(out, L, R)
         calls += 1
-        got, probs = index_output(out, L['id'].tolist(), R['id'].tolist(), True)
 
         def add(kind, i, j, info):
             nonlocal nviol
@@ -293,9 +300,10 @@ def w_packed_tiny(job):
                     if cls == 'must':
                         nontrivial += 1
                         if not present:
-                            if prop in ('C01', 'both'):
-                                add('lost', i, j, 'sizes=(%d,%d) overlap=%d' % (m, n, o))
-                        elif got[(i, j)] != sc and prop in ('C02', 'both'):
+                            if prop in ('C01', 'both', 'C04'):
+                                add('lost', i, j, 'sizes=(%d,%d) overlap=%d%s' % (
+                                    m, n, o, '' if via == 'join' else ' via %sFilter.filter_tables' % via))
+                        elif prop in ('C02', 'both') and got[(i, j)] != sc:
                             add('score', i, j, 'reported=%r expected=%r' % (got[(i, j)], sc))
                     elif cls == 'mustnot':
                         if present and prop in ('C02', 'both'):
